@@ -49,3 +49,15 @@ PROPS["C09"] = {
                       "rotation counts concrete from {0,1,K-1,K,K+1,2K,65537,u32::MAX}; pushed symbol symbolic"},
     "outside": "K values not instantiated; symbolic rotation counts",
 }
+
+PROPS["C03"] = {
+    "feature": "c03",
+    "tiers": tiers("C03"),
+    "mem_gb": 8,
+    "functions": ["Index<Range|RangeInclusive|RangeTo|RangeToInclusive|RangeFrom|RangeFull|usize> for SeqSlice", "SeqSlice::{nth,get,len,is_empty}",
+                  "Deref for Seq / SeqArray / Kmer<_,K,usize>", "From<&SeqSlice> for u8"],
+    "bounds": {"all": "backing store 2-3 symbolic 64-bit words (so two word boundaries are crossed by 5/6/8-bit symbols); range bounds a,b and "
+                      "probe index i fully symbolic within the store; re-slicing depth 3 with three independent symbolic ranges; out-of-bounds = "
+                      "range ends / index 1..2 symbols past the end or reversed bounds"},
+    "outside": "stores longer than 192 bits; indices whose product with BITS overflows usize (DESIGN 5-O1)",
+}
